@@ -123,6 +123,19 @@ def run_case(case, ctx):
         pprof[(x, y)] = M.model_of(ctx.call("pair_profile", fn["profile"], sts[x], sts[y], **pkw))
         pval[(x, y)] = ctx.call("pair_value", fn["dist"], sts[x], sts[y], **pkw)
     F = ctx.call("multi_profile", fn["profile"], sts, **kw)
+    if fn["kind"] in ("pwc", "pwl"):
+        # first thing a user may do with the fresh profile object: evaluate it at single
+        # times (at spike times: the mean of the one-sided limits) - before anything has
+        # looked at its arrays
+        some = next(iter(pprof.values()))
+        ts = list(some.x[1:-1][:2]) + [(some.x[0] + some.x[1]) / 2, some.x[0], some.x[-1]]
+        for t in ts:
+            got = ctx.call("multi_profile_eval", F, float(t))
+            e = sum(p.value(t) for p in pprof.values()) / len(pairs)
+            ctx.check(ps.close(float(got), e, tol), "mean_of_pair_profiles_at_a_time",
+                      lambda: "%s multivariate profile evaluated at t=%r (fresh object): %r, "
+                              "mean of the %d pair profiles there: %r"
+                      % (meas, float(t), float(got), len(pairs), float(e)))
     V = ctx.call("multi_value", fn["dist"], sts, **kw)
     if case.get("reconcile_off") and not auto:
         # valid input handed over with Reconcile=False (also with one object sitting at
